@@ -87,6 +87,24 @@ def queue_ops(f):
                     if q:
                         yield i, q, n['n']; break
 
+def only_called_from(F, f, allowed, depth=0):
+    """a helper extracted from role functions keeps their role: f is called at least once and every caller is a role function (or such a
+    helper itself); resolved callees, same translation unit"""
+    if not hasattr(F, '_callers'):
+        F._callers = {}
+        for g in F.funcs:
+            if not g.blocks: continue
+            for i, n in g.calls():
+                if 'fk' in n: F._callers.setdefault(n['fk'], set()).add(g.k)
+    cs = F._callers.get(f.k, set())
+    if not cs or depth > 2: return False
+    for ck in cs:
+        g = F.bykey.get(ck)
+        if g is None: return False
+        if g.n in allowed: continue
+        if not only_called_from(F, g, allowed, depth + 1): return False
+    return True
+
 @rule('queues')
 def queues(F, R):
     E = Effects(F)
@@ -99,7 +117,7 @@ def queues(F, R):
         muts = [(i, q, op) for i, q, op in ops if op in MUTATORS or op in ALGOS]
         for i, q, op in muts:
             allowed = QUEUE_ROLES.get((q, op), {})
-            ok = f.n in allowed
+            ok = f.n in allowed or only_called_from(F, f, allowed)
             R.anchor('queue-op:%s:%s:%s' % (be if q != 'POOL' else 'backmp11', q, op))
             R.ob('C04.queue-ops', ok, {'func': f.q, 'queue': q, 'op': op, 'at': f.at(i), 'role': allowed.get(f.n)})
             if not ok:
@@ -183,7 +201,7 @@ def erase_protocol(F, f, R):
     R.ob('C04.erase', ok, {'func': f.q})
     if not ok: R.find('C04.erase', f, 'unguarded-erase', why)
 
-def stored_callable(F, f, push_node, q, R):
+def stored_callable(F, f, push_node, q, R, _depth=0):
     """the pushed element is bind(pf, <machine>, <event by value>, source) with pf = &<same class>::process_event_internal"""
     R.anchor('stored-callable:' + backend_of(f) + ':' + q)
     n = f.nodes[push_node]
@@ -191,6 +209,14 @@ def stored_callable(F, f, push_node, q, R):
     from rules_order import dependency_closure
     dep = dependency_closure(f, push_node)
     binds = [d for d in dep if f.nodes[d] and f.nodes[d]['k'] == 'call' and f.nodes[d].get('n') == 'bind']
+    if not binds and _depth < 2:
+        # the pushed value is handed in by the caller (a push helper extracted from the role functions): judge it at the call sites
+        pnames = {p['n'] for p in f.d.get('params', [])}
+        if any(f.nodes[d] and f.nodes[d]['k'] == 'ref' and f.nodes[d].get('dk') == 'param' and f.nodes[d]['n'] in pnames for d in dep):
+            sites = [(g, i) for g in F.funcs if g.blocks for i, n in g.calls() if n.get('fk') == f.k]
+            if sites:
+                for g, i in sites: stored_callable(F, g, i, q, R, _depth + 1)
+                return
     ok = False; why = 'no bind(...) in the pushed value'
     for b in binds:
         bn = f.nodes[b]; args = bn['args']
@@ -217,8 +243,31 @@ def stored_callable(F, f, push_node, q, R):
             src_ok = any(f.nodes[d] and f.nodes[d]['k'] == 'mem' and f.nodes[d].get('n') == 'm_event' for d in evdep)
         else:
             src_ok = any(f.nodes[d] and f.nodes[d]['k'] == 'ref' and f.nodes[d].get('dk') == 'param' for d in evdep)
-        ok = pf_ok and tgt_ok and ev_ok and src_ok
-        why = 'bind(%s): member function %s, target %s, event by value %s, event is the submitted one %s' % (', '.join(f.expr(a) for a in args[:3]), 'ok' if pf_ok else 'NOT process_event_internal', 'ok' if tgt_ok else 'NOT the submitting machine', 'ok' if ev_ok else 'NOT a copy', 'ok' if src_ok else 'NO (a default-constructed probe object is stored, the payload is lost)')
+        # the stored call records where the event will come from when it is dispatched: the message queue / the deferred queue
+        # (that mark is what keeps the drain from re-entering itself and what single-stepping relies on)
+        mark_ok = True; mark_txt = ''
+        if len(args) >= 4:
+            e3 = f.expr(args[3])
+            need = 'EVENT_SOURCE_MSG_QUEUE' if q == 'MSGQ' else 'EVENT_SOURCE_DEFERRED'
+            a3 = f.nodes[args[3]]
+            while a3 and a3['k'] in ('icast', 'cast', 'paren'): a3 = f.nodes[a3['e']]
+            if a3 and a3['k'] == 'ref' and a3.get('dk') == 'param' and _depth < 2:
+                # the mark is a parameter of a push helper: every call site must pass a marked source
+                idx = [p['n'] for p in f.d.get('params', [])].index(a3['n']) if a3['n'] in [p['n'] for p in f.d.get('params', [])] else None
+                for g in F.funcs:
+                    if not g.blocks: continue
+                    for i, n in g.calls():
+                        if n.get('fk') == f.k and idx is not None:
+                            if idx < len(n.get('args', [])):
+                                if need not in g.expr(n['args'][idx]): mark_ok = False; mark_txt = '%s passes %s' % (g.n, g.expr(n['args'][idx]))
+                            else:
+                                # default argument of the helper
+                                pass
+            elif need not in e3: mark_ok = False; mark_txt = e3
+        ok = pf_ok and tgt_ok and ev_ok and src_ok and mark_ok
+        if not mark_ok:
+            why = 'bind(%s): the stored call is not marked %s (%s): it is dispatched as if submitted directly, so the drain re-enters itself and a single step runs more than one event' % (', '.join(f.expr(a) for a in args[:4]), 'EVENT_SOURCE_MSG_QUEUE' if q == 'MSGQ' else 'EVENT_SOURCE_DEFERRED', mark_txt)
+        else: why = 'bind(%s): member function %s, target %s, event by value %s, event is the submitted one %s' % (', '.join(f.expr(a) for a in args[:3]), 'ok' if pf_ok else 'NOT process_event_internal', 'ok' if tgt_ok else 'NOT the submitting machine', 'ok' if ev_ok else 'NOT a copy', 'ok' if src_ok else 'NO (a default-constructed probe object is stored, the payload is lost)')
         if ok: break
     R.ob('C04.target', ok, {'func': f.q, 'queue': q, 'bind': why})
     if not ok: R.find('C04.target', f, 'stored-callable:' + q, 'element pushed on the %s: %s' % (q, why), where=f.at(push_node))
